@@ -474,12 +474,77 @@ def gen_cases(rng, alg, tier, boost):
             ch = [msg[a:b] for a, b in zip([0] + cuts, cuts + [n])]
             cases.append((alg, ch, [rng.randrange(16) for _ in ch], "big-multi", None))
     if tier == "thorough":
+        for n in range(maxlen + 1, 1101):
+            msg = rng.randbytes(n)
+            cases.append((alg, [msg], [rng.randrange(16)], "oneshot", None))
+            if n <= 600:
+                cases.append((alg, [msg[i:i + 1] for i in range(n)], [rng.randrange(16) for _ in range(n)], "bytewise", None))
+        for n in range(0, 41):          # every 3-way split of the short messages
+            msg = rng.randbytes(n)
+            for i in range(n + 1):
+                for j in range(i, n + 1):
+                    cases.append((alg, [msg[:i], msg[i:j], msg[j:]], [i % 16, (j + 5) % 16, (i + j) % 16], "split3", None))
         for _ in range(3000):
             n = rng.choice([rng.randint(301, 5000), rng.randint(0, 300)])
             msg = rng.randbytes(n)
             ch = split_random(rng, msg)
             cases.append((alg, ch, [rng.randrange(16) for _ in ch], "multi-long", None))
     return cases
+
+
+# --------------------------------------------------------------------------
+# the byte/bit counter of MHD_SHA512_256_update: its "value wrap" branch needs one update call of
+# >= 2^64 - 2^61 bytes, so it is cut out of the source text and probed on its own
+
+_CNT_MAIN = r"""
+#include "MHD_config.h"
+#include <stdint.h>
+#include <stddef.h>
+#include <stdio.h>
+#include <inttypes.h>
+struct cnt_ctx { uint64_t count; uint64_t count_bits_hi; };
+static void probe (struct cnt_ctx *ctx, size_t length)
+{
+  uint64_t count_hi;
+  (void) count_hi;
+%s
+}
+int main (void)
+{
+  uint64_t c, h, l;
+  while (3 == scanf ("%%" SCNu64 " %%" SCNu64 " %%" SCNu64, &c, &h, &l))
+  {
+    struct cnt_ctx x = { c, h };
+    probe (&x, (size_t) l);
+    printf ("cnt %%" PRIu64 " %%" PRIu64 "\n", x.count, x.count_bits_hi);
+  }
+  return 0;
+}
+"""
+
+
+def counter_fragment():
+    """the statements of MHD_SHA512_256_update between `ctx->count += length;` and the buffer handling"""
+    src = extract.src("src/microhttpd/sha512_256.c")
+    m = re.search(r"MHD_SHA512_256_update\s*\(.*?\n(\s*ctx->count \+= length;.*?)\n\s*if \(0 != bytes_have\)", src, re.S)
+    return m.group(1) if m else None
+
+
+def counter_probes(rng):
+    W, T61 = 1 << 64, 1 << 61
+    ps = []
+    for c in [0, 1, 127, 128, T61 - 128, T61 - 1, T61 // 2] + [rng.randrange(T61) for _ in range(20)]:
+        for h in [0, 1, 7, 8, W - 9, W - 8, W - 1, rng.randrange(W)]:
+            for l in [1, 127, 128, T61 - 1, T61, T61 + 1, W - T61 - 1, W - T61, W - T61 + 1, W - c - 1 if c else W - 1,
+                      (W - c) % W or 1, W - 1, rng.randrange(1, W), rng.randrange(W - T61, W)]:
+                ps.append((c, h, l))
+    return ps
+
+
+def counter_oracle(c, h, l):
+    """128-bit bit counter: (hi * 2^64 + count * 8 + length * 8) mod 2^128, re-split at 2^61 bytes"""
+    bits = (h * (1 << 64) + 8 * c + 8 * l) % (1 << 128)
+    return (bits // 8) % (1 << 61), bits >> 64
 
 
 class Spec:
@@ -491,19 +556,34 @@ class Spec:
         "sha512_256_chunks", "sha512_256_reuse", "sha512_256_counter", "sha512_256_table_is_standard",
         "sha1_chunks", "sha1_reuse", "ws_sha1_chunks", "ws_sha1_reuse", "sha1_table_is_standard")]
     trusted_base = ["Lean 4 kernel", "axioms: propext, Classical.choice, Quot.sound at most (audited per theorem)",
-                    "hand-written specifications lean/Mhd/Model/Hash/Spec*.lean (RFC 1321 / FIPS 180-4 transcriptions; "
-                    "validated on published vectors and against hashlib on every explored message)",
-                    "hand-written model lean/Mhd/Model/Hash/{MD,Md5,Sha1,Sha256,Sha512}.lean tied to the C files by "
-                    "the regenerated step tables (tools/props/C16.py: instrumented step macros, executed) and this run's correspondence",
-                    "harness/h_hash.c, gcc, ASan/UBSan (alignment), Python hashlib as independent reference"]
+                    "hand-written specifications lean/Mhd/Model/Hash/Spec{Md5,Sha1,Sha256,Sha512}.lean + the padding frame "
+                    "Spec.Hash in Model/Hash/MD.lean (RFC 1321 / FIPS 180-4 transcriptions; validated on the published "
+                    "vectors and against hashlib on every explored message <= 300 bytes)",
+                    "hand-written model lean/Mhd/Model/Hash/{MD,Md5,Sha1,Sha256,Sha512}.lean: update/finish shape, step macros, "
+                    "sigma/Ch/Maj/rotate functions, SHA-512/256 counter; tied to the C files by the regenerated step tables, "
+                    "IVs and sizes (tools/props/C16.py: step macros re-defined as recorders, the transform executed) and by "
+                    "this run's correspondence",
+                    "harness/h_hash.c, gcc, ASan/UBSan (alignment)",
+                    "Python hashlib, and a pure-Python transcription of the standards for the byte-counter cases, as independent references"]
     assumptions = ["configured build: little-endian, !MHD_FAVOR_SMALL_CODE, 64-bit size_t",
-                   "alignment independence is a property of the C memory accesses: established by the run "
-                   "(all 16 misalignments of data and digest under UBSan), not by the theorems",
-                   "SHA-512/256: each single update call is shorter than 2^64 bytes (size_t)"]
+                   "which unrolled block runs for misaligned input is modelled (MD5 reads X[] after a memcpy); that a "
+                   "misaligned pointer is never dereferenced as a word is established by the run (all 16 misalignments of "
+                   "data and digest under UBSan -fsanitize=alignment), not by the theorems",
+                   "SHA-512/256: each single update call is shorter than 2^64 bytes (size_t)",
+                   "messages of 2^61 bytes and more are outside the standards (SHA-1, SHA-256); the specifications use the "
+                   "low 64 bits of the bit length there, and so does the code"]
     algs = [a for a in ALGS if a in os.environ.get("VERIF_C16_ALGS", ",".join(ALGS)).split(",")]
 
     def gen(self, ctx):
-        gen_hash()
+        try:
+            gen_hash()
+        except RuntimeError as ex:
+            # the step macros were renamed / reshaped: keep the committed tables (the proofs then speak about
+            # the last extracted code) and let the correspondence + hashlib decide whether behaviour changed
+            if not os.path.exists(os.path.join(extract.GEN, "Hash.lean")):
+                raise
+            ctx.note("extractor could not follow the source (%s); keeping committed Gen/Hash.lean" % str(ex)[:200])
+            self.gen_note = str(ex)[:300]
 
     def build(self, ctx):
         R = os.path.join(vlib.REPO, "src/microhttpd")
@@ -513,6 +593,45 @@ class Spec:
         self.h_ws = vlib.cc("h_hash_ws", [h, os.path.join(W, "sha1.c")],
                             extra=['-DHASH_WS_H="%s"' % os.path.join(W, "sha1.h")])
         self.driver = vlib.driver_path("drv_hash")
+        self.h_cnt = None
+        frag = counter_fragment()
+        if frag is not None:
+            src = os.path.join(vlib.BUILD, "h_hash_cnt.c")
+            open(src, "w").write(_CNT_MAIN % frag)
+            try:
+                self.h_cnt = vlib.cc("h_hash_cnt", [src])
+            except vlib.BuildError as ex:
+                ctx.note("sha512_256 counter fragment does not compile on its own (skipped): %s" % str(ex)[-300:])
+
+    def run_counter(self, ctx, failures, stats):
+        """sha512_256 byte/bit counter: real statements vs model vs 128-bit arithmetic"""
+        if self.h_cnt is None or "sha512_256" not in self.algs:
+            stats["counter_probes"] = "fragment not found in the source: wrap branch not exercised"
+            return
+        ps = counter_probes(ctx.rng)
+        hout, hrc, herr = vlib.run_lines(self.h_cnt, ["%d %d %d" % p for p in ps])
+        mout, mrc, merr = vlib.run_lines(self.driver, ["bump sha512_256 %d %d %d" % p for p in ps])
+        nwrap = 0
+        for i, (c, h, l) in enumerate(ps):
+            want = "cnt %d %d" % counter_oracle(c, h, l)
+            nwrap += 1 if c + l >= (1 << 64) else 0
+            got = hout[i] if i < len(hout) else "<none>"
+            inp = ["bump sha512_256 %d %d %d" % (c, h, l)]
+            if hrc != 0 and i >= len(hout):
+                failures.append(vlib.Failure("sanitizer", "hash sha512_256 counter: fragment aborted (%s)" % _san_kind(herr),
+                                             herr[-800:], inp, "hash"))
+                break
+            if got != want:
+                failures.append(vlib.Failure("oracle", "hash sha512_256 counter: bit count differs from 128-bit arithmetic",
+                                             "count=%d hi=%d length=%d: code '%s', arithmetic '%s'" % (c, h, l, got, want),
+                                             inp, "hash"))
+            elif i >= len(mout) or mout[i] != got:
+                failures.append(vlib.Failure("diff", "hash sha512_256 counter: model and code differ",
+                                             "count=%d hi=%d length=%d: code '%s', model '%s'"
+                                             % (c, h, l, got, mout[i] if i < len(mout) else "<none>"), inp, "hash"))
+            if len(failures) > 30:
+                break
+        stats["counter_probes"] = {"probes": len(ps), "with_64bit_wrap": nwrap}
 
     def harness_for(self, alg):
         return self.h_ws if alg == "wssha1" else self.h_main
@@ -616,6 +735,7 @@ class Spec:
             samples.append("%s len=%d chunks=%s offs=%s" % (alg, sum(len(x) for x in cases[5][1]),
                                                              [len(x) for x in cases[5][1]][:8], cases[5][2][:8]))
             ctx.note("%s: %d cases, %d failures so far" % (alg, stats["per_alg"][alg], len(failures)))
+        self.run_counter(ctx, failures, stats)
         cov = {"evaluations": stats["cases"], "distinct_nontrivial": len(distinct),
                "rule": "one evaluation = one message through init/update*/finish on the real code (16 replicas: every data "
                        "and digest misalignment 0..15, contexts re-used across messages), the Lean model, and hashlib; "
@@ -626,8 +746,10 @@ class Spec:
                "samples": samples, "algorithms": self.algs, "outcomes": {"agree_all_three": stats["agree"]},
                "by_mode": stats["by_tag"], "length_classes": stats["len_class"], "chunks_fed": stats["chunks"],
                "empty_chunks_fed": stats["empty_chunks"], "per_algorithm": stats["per_alg"],
+               "sha512_256_counter_fragment": stats.get("counter_probes"),
                "misalignments": "0..15 for every update and every digest (harness replicas), under -fsanitize=alignment",
-               "hashlib_has_sha512_256": _HAVE_512_256, "exhaustive": False}
+               "hashlib_has_sha512_256": _HAVE_512_256, "exhaustive": False,
+               "extractor_note": getattr(self, "gen_note", None)}
         return failures, cov
 
 
@@ -661,6 +783,19 @@ def replay(ctx, path):
         print("replay file carries no input (proof obligation only):", r.get("no_longer_checks"))
         return 1
     alg = inp[0].split()[1]
+    if inp[0].startswith("bump "):
+        if sp.h_cnt is None:
+            print("counter fragment not found in the source")
+            return 1
+        hout, hrc, herr = vlib.run_lines(sp.h_cnt, [" ".join(l.split()[2:]) for l in inp])
+        mout, mrc, merr = vlib.run_lines(sp.driver, inp)
+        bad = 0
+        for l, h, m in zip(inp, hout, mout):
+            w = l.split()
+            want = "cnt %d %d" % counter_oracle(int(w[2]), int(w[3]), int(w[4]))
+            print("%s   code: %s   model: %s   128-bit arithmetic: %s" % (l, h, m, want))
+            bad |= (h != want or m != h)
+        return 1 if bad else 0
     hout, hrc, herr = vlib.run_lines(sp.harness_for(alg), inp)
     mout, mrc, merr = vlib.run_lines(sp.driver, inp)
     for i, l in enumerate(inp):
